@@ -404,6 +404,8 @@ def run(ch: Choices, opts: Dict[str, Any]) -> Dict[str, Any]:
     h = hashlib.blake2b(repr((sample, [b.name for b in bells])).encode(), digest_size=8).hexdigest()
     if node_retry := (creator.env.retry_count + receiver.env.retry_count):
         bump(faults, "retry-timer-fired", node_retry)
+    if net.link.counters.get("answered-from-inside-put"):
+        bump(faults, "answered-from-inside-put", net.link.counters["answered-from-inside-put"])
     return {
         "digest": trace.digest(), "fingerprint": h + sched.fingerprint()[:8], "nontrivial": bool(nontrivial),
         "events": sched.steps, "sim_ns": sched.now, "faults": faults, "probes": probes, "calm": calm,
